@@ -953,6 +953,10 @@ class Interp:
                 le_ab = (isinstance(op, (ast.Lt, ast.LtE)) and res) or (isinstance(op, (ast.Gt, ast.GtE)) and not res)
                 if len(facts) < 400:
                     facts.append((ta, tb) if le_ab else (tb, ta))
+                    # strict version: `a < b` found true, or `a >= b` found false, ... (fl(p) < fl(q) holds on this path)
+                    strict = (isinstance(op, ast.Lt) and res) or (isinstance(op, ast.GtE) and not res) or (isinstance(op, ast.Gt) and res) or (isinstance(op, ast.LtE) and not res)
+                    if strict:
+                        self.__dict__.setdefault("strict_facts", []).append((ta, tb) if le_ab else (tb, ta))
             return res
         if isinstance(a, Tup) and isinstance(b, Tup):
             c = self.tuple_cmp(a, b, node)
